@@ -86,13 +86,32 @@ func push(d []byte) []byte {
 	return append([]byte{0x4d, byte(n), byte(n >> 8)}, d...)
 }
 
-// inscription: <P2PKH> OP_FALSE OP_IF "ord" OP_1 <content type> OP_0 <data> OP_ENDIF
-func inscription(pubkey, contentType, data []byte) []byte {
+// pushForm encodes a push with the shortest form (0) or with OP_PUSHDATA1 / 2 / 4 (1, 2, 3) where
+// the length fits: a script is what its bytes are, and the envelope of an inscription sits in a
+// branch that is never executed, so any push form is legal there.
+func pushForm(d []byte, form int) []byte {
+	n := len(d)
+	switch {
+	case form == 1 && n <= 255:
+		return append([]byte{0x4c, byte(n)}, d...)
+	case form == 2 && n <= 65535:
+		return append([]byte{0x4d, byte(n), byte(n >> 8)}, d...)
+	case form == 3:
+		return append([]byte{0x4e, byte(n), byte(n >> 8), byte(n >> 16), byte(n >> 24)}, d...)
+	}
+	return push(d)
+}
+
+// inscription: <P2PKH> OP_FALSE OP_IF "ord" OP_1 <content type> OP_0 <data> OP_ENDIF; forms gives
+// the push form of "ord", the content type and the data (base-4 digits).
+func inscription(pubkey, contentType, data []byte, forms int) []byte {
 	s := p2pkh(pubkey)
-	s = append(s, 0x00, 0x63, 0x03, 'o', 'r', 'd', 0x51)
-	s = append(s, push(contentType)...)
+	s = append(s, 0x00, 0x63)
+	s = append(s, pushForm([]byte("ord"), forms%4)...)
+	s = append(s, 0x51)
+	s = append(s, pushForm(contentType, forms/4%4)...)
 	s = append(s, 0x00)
-	s = append(s, push(data)...)
+	s = append(s, pushForm(data, forms/16%4)...)
 	return append(s, 0x68)
 }
 
@@ -194,6 +213,24 @@ func verifyCarrying(m ref.Tx, s int, ht int, afterGenesis bool, carry *ref.In) e
 		one := bscript.NewFromBytes([]byte{0x51})
 		_ = eng.Execute(interpreter.WithScripts(one, bscript.NewFromBytes([]byte{0x51})))
 		_ = eng.Execute(interpreter.WithScripts(bscript.NewFromBytes([]byte{0x00, 0x69}), one), interpreter.WithAfterGenesis())
+	}
+	// ... or a spend by a RELATED key: the same signature presented with the negated public key (same
+	// X coordinate, other parity) against an output paying that key. It is rejected, as it must be;
+	// what the process remembers about that key must not reach the verification that follows.
+	if sig, key, ok := twoPushes(m.In[s].Unlock); ok && len(key) == 33 && (key[0] == 2 || key[0] == 3) && (len(m.In)+len(m.Out)+s)%2 == 1 {
+		neg := append([]byte{key[0] ^ 1}, key[1:]...)
+		rel := cloneModel(bare)
+		rel.In[s].Unlock, rel.In[s].UnlockNil = append(push(sig), push(neg)...), false
+		relOpts := []interpreter.ExecutionOptionFunc{interpreter.WithTx(ref.ToLib(rel), s, &bt.Output{Satoshis: m.In[s].PrevSats, LockingScript: bscript.NewFromBytes(p2pkh(neg))})}
+		if ht&0x40 != 0 {
+			relOpts = append(relOpts, interpreter.WithForkID())
+		}
+		if afterGenesis {
+			relOpts = append(relOpts, interpreter.WithAfterGenesis())
+		}
+		if eng.Execute(relOpts...) == nil {
+			return fmt.Errorf("a signature made by one key is accepted for the negated public key %x (output paying that key)", neg)
+		}
 	}
 	return eng.Execute(opts...)
 }
@@ -349,6 +386,34 @@ func harnessError(format string, a ...any) {
 	os.Exit(2)
 }
 
+// nonMinimalPush reports whether a well-formed script uses a longer push form than necessary.
+func nonMinimalPush(s []byte) bool {
+	for i := 0; i < len(s); {
+		op, n, h := s[i], 0, 1
+		switch {
+		case op >= 1 && op <= 75:
+			n = int(op)
+		case op == 0x4c && i+1 < len(s):
+			n, h = int(s[i+1]), 2
+			if n <= 75 {
+				return true
+			}
+		case op == 0x4d && i+2 < len(s):
+			n, h = int(s[i+1])|int(s[i+2])<<8, 3
+			if n <= 255 {
+				return true
+			}
+		case op == 0x4e && i+4 < len(s):
+			n, h = int(s[i+1])|int(s[i+2])<<8|int(s[i+3])<<16|int(s[i+4])<<24, 5
+			if n <= 65535 {
+				return true
+			}
+		}
+		i += h + n
+	}
+	return false
+}
+
 // ---- the check -----------------------------------------------------------------
 
 func check(ctx *pbt.Ctx, c Case) error {
@@ -364,6 +429,9 @@ func check(ctx *pbt.Ctx, c Case) error {
 	kind := "p2pkh"
 	if len(spent) > 25 {
 		kind = "inscription"
+		if nonMinimalPush(spent[25:]) {
+			ctx.Label("inscription_with_non_minimal_push")
+		}
 	}
 
 	// ---- sign through the library's signing path only
@@ -677,7 +745,11 @@ func genCase(t *rapid.T) Case {
 		if dl == 0 {
 			dl = 1
 		}
-		ins := inscription(pubBytes, ct, gen.FillBytes(t, dl, label+"_data"))
+		forms := 0
+		if rapid.IntRange(0, 3).Draw(t, label+"_pushforms") == 0 {
+			forms = rapid.IntRange(1, 63).Draw(t, label+"_forms")
+		}
+		ins := inscription(pubBytes, ct, gen.FillBytes(t, dl, label+"_data"), forms)
 		// enriched form: ... OP_ENDIF OP_RETURN <items>; a top-level OP_RETURN only succeeds after genesis
 		if c.AfterGenesis && rapid.IntRange(0, 2).Draw(t, label+"_enrich") == 0 {
 			ins = append(ins, 0x6a)
